@@ -54,6 +54,20 @@ func c19Scenarios() []c19Scenario {
 			must(w, world.TxSpec{Msgs: []sdk.Msg{pnfttypes.NewMsgCreateDenomRequest("dd", "S", "n", "", "", "", e.B.Bech, "")}, Signers: s(e.B)})
 			must(w, world.TxSpec{Msgs: []sdk.Msg{pnfttypes.NewMsgMintPNFTRequest("dd", "t", "same token id in another denom", "", "", "", e.B.Bech, "")}, Signers: s(e.B)})
 		}},
+		{"removed-denom-d+live-denoms-dd-and-d-x", func(e *domEnv, w *world.World) {
+			// denom d: its only token burned, then the denom deleted (x/nft keeps a zero supply counter); live denoms whose ids
+			// have "d" as a strict prefix hold tokens; removed topic writers and a prefix-related topic name as well
+			must(w, world.TxSpec{Msgs: []sdk.Msg{pnfttypes.NewMsgCreateDenomRequest("dd", "S", "n", "", "", "", e.B.Bech, "data")}, Signers: s(e.B)})
+			must(w, world.TxSpec{Msgs: []sdk.Msg{pnfttypes.NewMsgMintPNFTRequest("dd", "t", "tok", "", "", "", e.B.Bech, "")}, Signers: s(e.B)})
+			must(w, world.TxSpec{Msgs: []sdk.Msg{pnfttypes.NewMsgMintPNFTRequest("dd", "t2", "tok2", "", "", "", e.B.Bech, "")}, Signers: s(e.B)})
+			must(w, world.TxSpec{Msgs: []sdk.Msg{pnfttypes.NewMsgCreateDenomRequest("d-x", "S", "n", "", "", "", e.A.Bech, "")}, Signers: s(e.A)})
+			must(w, world.TxSpec{Msgs: []sdk.Msg{pnfttypes.NewMsgMintPNFTRequest("d-x", "t", "tok", "", "", "", e.A.Bech, "")}, Signers: s(e.A)})
+			must(w, world.TxSpec{Msgs: []sdk.Msg{pnfttypes.NewMsgBurnPNFTRequest("d", "t", e.A.Bech)}, Signers: s(e.A)})
+			must(w, world.TxSpec{Msgs: []sdk.Msg{pnfttypes.NewMsgDeleteDenomRequest("d", e.A.Bech)}, Signers: s(e.A)})
+			must(w, world.TxSpec{Msgs: []sdk.Msg{aoltypes.NewMsgCreateTopic("ab", "", e.A.Bech)}, Signers: s(e.A)})
+			must(w, world.TxSpec{Msgs: []sdk.Msg{aoltypes.NewMsgAddWriter("ab", "", "", e.W.Bech, e.A.Bech)}, Signers: s(e.A)})
+			must(w, world.TxSpec{Msgs: []sdk.Msg{aoltypes.NewMsgDeleteWriter("a", e.W.Bech, e.A.Bech)}, Signers: s(e.A)})
+		}},
 		{"many-records", func(e *domEnv, w *world.World) {
 			for i := 0; i < 5; i++ {
 				must(w, world.TxSpec{Msgs: []sdk.Msg{aoltypes.NewMsgAddRecordRequest("a", []byte{byte(i)}, []byte(strings.Repeat("v", i)), e.W.Bech, e.A.Bech, "")}, Signers: s(e.W)})
